@@ -106,9 +106,27 @@ def check_C10(run):
     common_assumptions(run)
     enum_pipeline(run, "C10", observe=True)
     trees_pipeline(run, "C10")
+    # byte level: arbitrary symbol sequences (NUL, invalid UTF-8, quotes ...) through Parse and both renderers
+    import lexfam
+    if run.tier == "quick":
+        res, tot, hang = lexfam.stage_lex_enum(run, 3, lexfam.FULL_SYMS, observe=True)
+        lexfam.stage_judge_lexer(run, res, "C10")
+        res, tot, hang = lexfam.stage_lex_enum(run, 0, lexfam.FULL_SYMS, random=10000, rlen=30, name="lex_random", observe=True)
+        lexfam.stage_judge_lexer(run, res, "C10", name="judge_lexer_random")
+    else:
+        res, tot, hang = lexfam.stage_lex_enum(run, 3, lexfam.FULL_SYMS, observe=True)
+        lexfam.stage_judge_lexer(run, res, "C10")
+        res, tot, hang = lexfam.stage_lex_enum(run, 5, lexfam.SUB_SYMS_SMALL + ["NUL", "BAD"], observe=True, name="lex_enum_sub")
+        lexfam.stage_judge_lexer(run, res, "C10", name="judge_lexer_sub")
+        res, tot, hang = lexfam.stage_lex_enum(run, 0, lexfam.FULL_SYMS, random=300000, rlen=60, name="lex_random", observe=True)
+        lexfam.stage_judge_lexer(run, res, "C10", name="judge_lexer_random")
 
 
 def check_C11(run):
     common_assumptions(run)
     enum_pipeline(run, "C11")
     trees_pipeline(run, "C11")
+    # default-field names that need quoting / look like syntax
+    for i, df in enumerate(["my field", "a*", "x:y", "\"q\"", "NOT"]):
+        res, _, tot, _ = stage_enum(run, 3 if run.tier == "quick" else 4, FULL_ALPHABET, name="enum_df%d" % i, df=df)
+        stage_judge_enum(run, res, "C11", name="judge_enum_df%d" % i)
